@@ -7,7 +7,7 @@ TRUSTED = [
     "harness/satfunc.cpp (real PiecewiseLinearTwoPhaseMaterial / EclEpsTwoPhaseLaw / EclHysteresisTwoPhaseLaw templates instantiated directly) + lib/vlib.py differ; model driver (compiled Lean at IEEE double, operation order mirrored, bit-exact comparison)",
     "harness/satdeck.cpp (random decks -> real Parser -> EclipseState -> EclMaterialLawManager::initFromState/initParamsForElements; hands the model the tables as the TableManager holds them and the end-point arrays as the field properties hold them, both in SI: the text -> number and unit conversion steps belong to C01/C16/C19, not to this check)",
     "Float ~ R: theorems are over a linearly ordered field",
-    "modelled, not verified: Stone 1 / Stone 2, the two-phase and gas-water multiplexer branches at deck level (the gas-water hysteresis object is modelled and corresponded at template level only), LET and SLGOF / family III tables, JFUNC (Leverett) and SWATINIT / PPCWMAX, ENPTVD/ENKRVD depth tables, directional (KRNUMX..) and LGR lookups, WAG hysteresis",
+    "modelled, not verified: Stone 1 / Stone 2; the two-phase (oil-water, gas-water) multiplexer branches at deck level are reached by the property mode only (prop_deck section 9; no model / correspondence; the gas-water hysteresis object is modelled and corresponded at template level only; gas-water decks with ENDSCALE are outside), LET and SLGOF / family III tables, JFUNC (Leverett) and SWATINIT / PPCWMAX, ENPTVD/ENKRVD depth tables, directional (KRNUMX..) and LGR lookups, WAG hysteresis",
 ]
 
 
@@ -17,7 +17,8 @@ def run(ctx):
         "a non-empty two-phase mobile range (table SWCR < 1 - SOWCR - SGL etc.): otherwise the three-point vertical scaling divides 0 by 0 (the deck generator of the property mode keeps to it; the correspondence does not and compares NaN with NaN)",
         "PCW / PCG only for regions whose table has a non-zero maximum capillary pressure (else 0 * (PCW / 0) = NaN, design.d/C15.md finding F-C15-1)",
         "hysteresis: EHYSTR item 2 = 0..4, flag KR / PC / BOTH at template and deck level (complete EclHysteresisTwoPhaseLawParams object, Model/HystFull.lean); no WAG; the Killough statements of the property mode apply where the imbibition critical saturation is not below the drainage one (decided from the input end-points)",
-        "three phases, default three-phase oil relperm model",
+        "three phases, default three-phase oil relperm model (model, correspondence); two-phase oil-water and gas-water decks in the property mode only",
+        "Killough statements at deck level (prop_deck section 8): where Land's formula is defined — Sncrd <= Sncri < Snmaxd and Snhy <= Snmaxd, decided from the end-points of two non-hysteretic decks; a continuous start of the scanning curve is required only where the imbibition curve meets the drainage curve at the drainage maximum gas saturation (Props.C15.killough_krn_scan_start: iff)",
         "cells that scale only a subset of their end-points (property mode): the eight saturation end-points of the cell stay ordered; three-point vertical scaling (KRWR/KRGR/KRORW/KRORG) only where the table has 0 < KRxR < KRx and the cell's three scaling points of that curve are distinct (KRxR and KRx given for one and the same saturation is contradictory input)",
     ]
     if not ctx.stage_build_opm():
